@@ -95,7 +95,7 @@ func runParent(r *ev.Run) {
 	}
 	// ---- (2b) bursts: many cheap rounds on single conflict points ----
 	for bi := 0; bi < r.N(2, 8); bi++ {
-		c := spawn("bursts", "x", r.N(450, 1200), r.Seed*1000+int64(bi), 20*time.Minute)
+		c := spawn("bursts", "x", r.N(600, 1500), r.Seed*1000+int64(bi), 20*time.Minute)
 		if !judgeChild(r, c, "bursts") {
 			continue
 		}
@@ -108,6 +108,7 @@ func runParent(r *ev.Run) {
 		r.Count("bursts.spend", br.SpendBursts)
 		r.Count("bursts.key", br.KeyBursts)
 		r.Count("bursts.select", br.SelectBursts)
+		r.Count("bursts.select-warm", br.WarmSelectBursts)
 		r.Count("requests.admitted", br.Admitted)
 		r.Count("requests.refused", br.Refused)
 		r.Evals(br.Bursts)
@@ -227,6 +228,7 @@ func runParent(r *ev.Run) {
 	r.Floor("rounds", 100)
 	r.Floor("rounds.with-overlapping-conflict", 30)
 	r.Floor("rounds.reservation", 15)
+	r.Floor("bursts.select-warm", 100)
 	r.Floor("porcupine.ok", 60)
 	r.Floor("spin.acquired", 50000)
 	r.Floor("spin.refused", 1000)
